@@ -27,6 +27,7 @@ type c09Case struct {
 	SplitEach     int   `json:"split_every"`  // every n-th request is a split MGET over two nodes (0 = never)
 	Second        bool  `json:"second_client"`
 	Burst         int   `json:"burst_behind_slow_head,omitempty"` // >0: a head request answered after 300 ms, this many fast requests right behind it, then silence
+	Lone          bool  `json:"lone_requests,omitempty"`          // three clients each send single requests to a node of their own and stay silent in between; replies are arrays of tiny elements, empty arrays, null bulks ...
 	SlowPartnerMs int   `json:"slow_partner_ms,omitempty"`        // >0: four clients each send GET a; MGET a c in one write, node C answers this late: GET's reply must not wait for the MGET
 }
 
@@ -54,6 +55,12 @@ func c09Gen(t *rapid.T) c09Case {
 	}
 	c.SplitEach = rapid.SampledFrom([]int{0, 0, 3, 10}).Draw(t, "split")
 	c.Second = rapid.Bool().Draw(t, "second")
+	if rapid.IntRange(0, 6).Draw(t, "lonemode") == 0 {
+		c.Lone = true
+		c.Nodes, c.SplitEach, c.Second, c.DurMs = 3, 0, false, 2600
+		c.LatMs = []int{rapid.IntRange(0, 20).Draw(t, "lonelat")}
+		return c
+	}
 	if rapid.IntRange(0, 6).Draw(t, "partnermode") == 0 {
 		c.SlowPartnerMs = rapid.IntRange(1500, 2200).Draw(t, "partnerms")
 		c.Nodes, c.SplitEach, c.Second, c.DurMs = 3, 0, false, c.SlowPartnerMs+400
@@ -144,6 +151,10 @@ func c09Run(f *Fixture, c *c09Case) ([]Discrepancy, bool) {
 			}
 		}
 		a := fakecluster.Action{Reply: fakecluster.EchoReply(req)}
+		if c.Lone {
+			shapes := [][]byte{[]byte("*3\r\n:1\r\n:0\r\n:1\r\n"), []byte("*0\r\n"), []byte("*2\r\n*0\r\n*0\r\n"), []byte("$-1\r\n"), []byte("*-1\r\n"), []byte(":0\r\n"), []byte("+\r\n"), []byte("$0\r\n\r\n"), []byte("*1\r\n$-1\r\n"), []byte("*4\r\n:1\r\n:2\r\n:3\r\n:4\r\n")}
+			a.Reply = shapes[int(req.Seq)%len(shapes)]
+		}
 		if l > 0 {
 			// reply at arrival + l (replies of one connection stay in order)
 			g := make(chan struct{})
@@ -161,6 +172,9 @@ func c09Run(f *Fixture, c *c09Case) ([]Discrepancy, bool) {
 	if c.SlowPartnerMs > 0 {
 		nclients = 4
 	}
+	if c.Lone {
+		nclients = 3
+	}
 	streams := make([]*c09Stream, nclients)
 	var wg sync.WaitGroup
 	for ci := 0; ci < nclients; ci++ {
@@ -176,6 +190,22 @@ func c09Run(f *Fixture, c *c09Case) ([]Discrepancy, bool) {
 		go func(ci int) {
 			defer wg.Done()
 			end := time.Now().Add(time.Duration(c.DurMs) * time.Millisecond)
+			if c.Lone {
+				// one request to a node nobody else talks to, then silence: the reply is the last thing on that
+				// backend connection
+				for round := 0; round < 2; round++ {
+					k := refmodel.KeyInSlot(slots[ci%len(slots)], fmt.Sprintf("c%dr%dk0", ci, round))
+					s.keys = append(s.keys, k)
+					s.sentAt = append(s.sentAt, time.Now())
+					if err := cl.Write(refmodel.EncodeCmdS("eval", "return {}", "1", k)); err != nil {
+						break
+					}
+					s.nreq++
+					time.Sleep(1250 * time.Millisecond)
+				}
+				s.sendDone = time.Now()
+				return
+			}
 			if c.SlowPartnerMs > 0 {
 				ka := refmodel.KeyInSlot(slots[0], fmt.Sprintf("c%dr0k0", ci))
 				kb := refmodel.KeyInSlot(slots[0]+1, fmt.Sprintf("c%dr1k0", ci))
@@ -303,6 +333,9 @@ func c09Run(f *Fixture, c *c09Case) ([]Discrepancy, bool) {
 		if c.SlowPartnerMs > 0 && judged >= 2 {
 			allNT = true
 		}
+		if c.Lone && judged >= 2 {
+			allNT = true
+		}
 	}
 	return ds, allNT
 }
@@ -329,6 +362,9 @@ func TestC09(t *testing.T) {
 		}
 		if c.SlowPartnerMs > 0 {
 			cls = append(cls, "completed-reply-ahead-of-a-slow-split-request")
+		}
+		if c.Lone {
+			cls = append(cls, "lone-requests-with-tiny-replies")
 		}
 		if nt {
 			cls = append(cls, "always-outstanding")
